@@ -43,6 +43,7 @@ type Build struct {
 	Wall          map[string]float64
 	Race          bool
 	Dropped       []string // regenerated packages dropped because they do not compile
+	APIVersion    int      // API_VERSION read from the tree\'s plugin/api.thrift (0: not found)
 	RandomSchemas int
 }
 
@@ -110,6 +111,16 @@ func PrepareBuild(o buildOpts) (*Build, error) {
 		return b, fmt.Errorf("copy: %v %s", err, out)
 	}
 	lap("copy")
+
+	// the plugin protocol's API_VERSION is part of the IDL, not of the harness
+	if data, err := os.ReadFile(filepath.Join(b.Src, "plugin", "api.thrift")); err == nil {
+		for _, line := range strings.Split(string(data), "\n") {
+			f := strings.Fields(line)
+			if len(f) >= 5 && f[0] == "const" && f[2] == "API_VERSION" && f[3] == "=" {
+				fmt.Sscanf(f[4], "%d", &b.APIVersion)
+			}
+		}
+	}
 
 	// 2. the tree's own generator, unmodified
 	gen := filepath.Join(b.Bin, "thriftrw")
@@ -254,6 +265,9 @@ func PrepareBuild(o buildOpts) (*Build, error) {
 		}
 	}
 	lap("compile")
+	if b.APIVersion > 0 {
+		apiVersionEnv = fmt.Sprint(b.APIVersion)
+	}
 	return b, nil
 }
 
